@@ -341,12 +341,13 @@ match * match_new(size_t start, size_t len, unsigned short match_type) {
 
 
 void match_free(match * m) {
-	if (m) {
-		if (m->next) {
-			match_free(m->next);
-		}
+	match * next;
 
+	// Iterate rather than recurse -- the list has one entry per match in the source
+	while (m) {
+		next = m->next;
 		free(m);
+		m = next;
 	}
 }
 
